@@ -261,6 +261,9 @@ fn build_meta(name: &str, origin: &str, text: &str, acc: &Accepted, probes: bool
             if model.creation_makes_later_mark_stale() {
                 t.push("node_creation_makes_later_mark_stale".to_string());
             }
+            if model.return_without_consumption_in_loop() {
+                t.push("return_without_consumption_in_loop".to_string());
+            }
             t
         },
     })
